@@ -185,6 +185,28 @@ def gen_big_ladder(rng, min_k=10, max_k=14):
     return {"triples": layout(order, lengths, gaps, rng), "family": "bigladder:%d" % k}
 
 
+def gen_near_ladder(rng, min_k=10, max_k=13):
+    """A big ladder (k mutually crossing stems) with a few adjacent transpositions in the order of the 3' arms, so
+    that a handful of stem pairs nest instead of crossing: the optimum still needs about k levels (two-digit
+    orders, letter brackets), the conflict graph is no longer complete and equal-length ties are fewer."""
+    k = rng.randint(min_k, max_k)
+    close = list(range(k))
+    for _ in range(rng.randint(0, 3)):
+        i = rng.randrange(k - 1)
+        close[i], close[i + 1] = close[i + 1], close[i]
+    order = list(range(k)) + close
+    regime = rng.choice(["ones", "small", "distinct"])
+    if regime == "ones":
+        lengths = [1] * k
+    elif regime == "small":
+        lengths = [rng.choice([1, 1, 2, 3]) for _ in range(k)]
+    else:
+        lengths = list(range(1, k + 1))
+        rng.shuffle(lengths)
+    gaps = [rng.choice([0, 1]) for _ in range(len(order) + 1)]
+    return {"triples": layout(order, lengths, gaps, rng), "family": "nearladder:%d" % k}
+
+
 def all_matchings(n):
     """Every perfect-or-partial matching on positions 1..n as a sorted tuple of pairs."""
 
